@@ -402,12 +402,15 @@ def check(ctx):
     distinct = set()
     failures = {}     # signature -> first case
     foreign = {}      # foreign-crash signature -> first case
+    fam_rejected = {}  # deterministic family member the compiler refuses although it is valid by construction
 
     def account(cases, verdicts):
         for c, v in zip(cases, verdicts):
             stats["programs"] += 1
             if v == "compile-error":
                 stats["compile_errors"][c.sig] = stats["compile_errors"].get(c.sig, 0) + 1
+                if c.name.startswith(("ringwrap:", "large:")) and not c.name.endswith(":reject"):
+                    fam_rejected.setdefault(c.name.split(":k")[0] if c.rw else c.name, c)
                 continue
             if v == "foreign-crash":
                 stats["foreign_crashes"][c.sig] = stats["foreign_crashes"].get(c.sig, 0) + 1
@@ -500,6 +503,15 @@ def check(ctx):
         classify(small)
         replay = save_case(ctx, small, "program", "violation")
         ctx.violations.append({"signature": sig, "replay": replay, "why": small.why or c.why, "found_input": True})
+    for name, c in sorted(fam_rejected.items())[:3]:
+        c.sig = "family-rejected:" + name
+        c.why = ("the compiler refuses `%s`, a program of the deterministic families that is valid by construction (%s): the clauses of C02 are "
+                 "unobserved for the construct it exists to exercise (operand counts up to the width of the count operand / peephole shapes); "
+                 "harness: %s" % (c.name, name, (c.hline or "")[:300]))
+        replay = save_case(ctx, c, "program", "family-rejected")
+        ctx.violations.append({"signature": c.sig, "replay": replay, "why": c.why, "found_input": True})
+    ctx.oblige("(coverage) every program of the deterministic families (ring-wrap sweep, large operand counts up to the count operands' width) is accepted by the compiler",
+               not fam_rejected, "%d refused: %s" % (len(fam_rejected), ", ".join(sorted(fam_rejected)[:8])), reported=True)
     ctx.oblige("correspondence: every program the real compiler accepted (%d) passes the proved verifier, and every transition of the real VM (%d) is a transition of the abstract VM, threads end with an empty stack" % (
         stats["accepted"], stats["edges"]), not failures, "%d distinct failure signatures: %s" % (len(failures), ", ".join(sorted(failures)[:8])), reported=True)
     ctx.stats.update({k: v for k, v in stats.items()})
